@@ -72,6 +72,31 @@ def rewrite_iters(text):
     return text
 
 
+def desugar_let_if(m, stmt, ty, what):
+    """`let NAME = if C { ..; a } else { ..; b };`  =  `let mut NAME: ty = 0; if C { ..; NAME = a; } else { ..; NAME = b; }` (both branches assign, so the
+    initial value is never read).  A statement-`if` merges the variables its branches write (a value-`if` cannot: see `if_value` in rs2lean.py)."""
+    U = m.Unsupported
+    mm = re.match(r"\s*let\s+([a-z_]\w*)\s*=\s*if\b", stmt)
+    if not mm: raise U(f"{what}: not a `let NAME = if ..` statement")
+    name = mm.group(1)
+    j = stmt.index("{", mm.end()); cond = stmt[mm.end():j]
+    e1 = m.brace_block(stmt, j, what)
+    rest = stmt[e1:]
+    m2 = re.match(r"\s*else\s*\{", rest)
+    if not m2: raise U(f"{what}: `let {name} = if` without a plain `else {{ .. }}`")
+    j2 = e1 + m2.end() - 1; e2 = m.brace_block(stmt, j2, what)
+    if stmt[e2:].strip() != ";": raise U(f"{what}: text after the `else` block of `let {name} = if`")
+    def blk(text):
+        st = split_stmts(text, what, U)
+        cut = st[-1][1] if st else 0
+        tail = text[cut:].strip()
+        if not tail and st and not text[st[-1][0]:st[-1][1]].rstrip().endswith(";"):      # a trailing `if .. {..} else {..}` without `;` is the block's value
+            cut = st[-1][0]; tail = text[cut:].strip()
+        if not tail: raise U(f"{what}: branch of `let {name} = if` without a value")
+        return "{ " + text[:cut] + f" {name} = {tail}; }}"
+    return f"let mut {name}: {ty} = 0; if {cond} {blk(stmt[j + 1:e1 - 1])} else {blk(stmt[j2 + 1:e2 - 1])}"
+
+
 def idents(text): return set(re.findall(r"[A-Za-z_]\w*", text))
 
 
@@ -99,11 +124,13 @@ def fragment(m, tr, body, line, fname, spec):
         return hits[-1] if last else hits[0]
     if spec.get("contains"):       # the range from the FIRST to the LAST top-level statement that mentions a function name
         k0, k1 = find_contains(spec["contains"], False), find_contains(spec["contains"], True)
+        if spec.get("first_only"): k1 = k0
     else:
         k0 = find(spec["start"])
         k1 = find(spec["end"]) if spec.get("end") else len(st) - 1
     if k1 < k0: raise U(f"{what}: end statement before start statement")
     frag = blk[st[k0][0]:st[k1][1]]
+    if spec.get("let_if"): frag = desugar_let_if(m, frag, spec["let_if"], what)
     if re.search(r"\breturn\b", frag): raise U(f"{what}: `return` inside the range")
     ln = line + body.count("\n", 0, inner0 + st[k0][0])
     # immutable top-level lets of `validate` in front of the range (only those the range mentions, transitively)
@@ -313,6 +340,17 @@ NEW_CHAIN_FRAGMENT = {"name": "new_chain", "fn": "new", "impl": "HeContext", "mu
              "params": "parms: EncryptionParameters, expand_mod_chain: bool, sec_level: SecurityLevel",
              "opts": {"skeleton": SK_NEW_CHAIN, "nested_loops": True, "loops": [{"fuel": "k"}]}}
 
+# the choice of the first data level in `HeContext::new`: the FIRST top-level statement that calls `create_next_context_data`
+# (`let first_parms_id = if <key invalid || one modulus || special prime> { key } else { .. create_next_context_data(..) .. };`), after the desugaring
+# `desugar_let_if`.  Result: the trace of created levels (empty = first level is the key level, [k-1] = the level below it).
+SK_NEW_FIRST = {
+    "sig": "fn new_first(k: usize, valid: &[u64], special: bool, chain: &mut Vec<u64>)",
+    "handles": [KEYID, MAP],
+    "exprs": {KEYID: "k", "PARMS_ID_ZERO": "0", "parms.coeff_modulus().len()": "k", "parms.use_special_prime_for_encryption()": "special",
+              (MAPGET % KEYID) + ".qualifiers.parameters_set()": "valid[k] != 0",
+              "Self::create_next_context_data(&%s, &%s, sec_level)" % (MAP, KEYID): "create_next_context_data(k, valid, chain)"},
+}
+
 SPEC = {"ctx_mode": True, "ns": "GenX", "imports": ["Heathcliff.Gen.WordFns", "Heathcliff.Gen.RnsFns"], "opens": ["HC.GenW"], "prelude": PRELUDE,
         "table": [{"file": UR, "fn": "decompose", "impl": "RNSBase", "lean": "rns_decompose", "model": "decomposeW", "skeleton": SK_DECOMPOSE, "register_as": "decompose", "nested_loops": True}],
         "fragments": [
@@ -324,4 +362,7 @@ SPEC = {"ctx_mode": True, "ns": "GenX", "imports": ["Heathcliff.Gen.WordFns", "H
             {"name": "create_next_context_data", "fn": "create_next_context_data", "whole": True,
              "params": "context_data_map: Map, prev_parms_id: ParmsID, sec_level: SecurityLevel",
              "opts": {"skeleton": SK_CREATE_NEXT, "register_as": "create_next_context_data"}},
+            {"name": "new_first", "fn": "new", "impl": "HeContext", "mut_lets": True, "contains": r"\bcreate_next_context_data\b", "first_only": True,
+             "let_if": "usize", "params": "parms: EncryptionParameters, expand_mod_chain: bool, sec_level: SecurityLevel",
+             "opts": {"skeleton": SK_NEW_FIRST}},
         ]}
